@@ -52,6 +52,28 @@ func families(thorough bool) []family {
 		// names of the minifier's own x<N> scheme in the source
 		{name: "gen", cfg: gcfg{Names: []string{"a", "x1"}, MaxW: 5 + d, MaxItems: 2, Styles: 1, HoleMaxW: 2}, altFrom: []string{"x1"}, altTo: []string{"c"}},
 	}
+	// names the language itself binds as definable names: builtins, a special
+	// operator, a stock macro (bodies are tagged lists, so the program's
+	// function never behaves like the language's)
+	type ln struct {
+		name string
+		w    int
+	}
+	lang := []ln{{"first", 5}, {"if", 5}, {"max", 4}, {"trace", 4}}
+	if thorough {
+		lang = append(lang, ln{"rest", 4}, ln{"length", 4})
+	}
+	for _, b := range lang {
+		fams = append(fams, family{name: "lang-" + b.name, cfg: gcfg{Names: []string{b.name, "a"}, LangName: true, MaxW: b.w + d, MaxItems: 2, Styles: 1, HoleMaxW: 3}})
+	}
+	fams = append(fams,
+		// `list` itself redefined (bodies are tagged with vector instead)
+		family{name: "lang-list", cfg: gcfg{Names: []string{"list", "a"}, LangName: true, Wrap: "vector", MaxW: 4 + d, MaxItems: 2, Styles: 1, HoleMaxW: 2}},
+		// a builtin name defined in the user package and in a named package, referenced unqualified and qualified
+		family{name: "lang-pkg", cfg: gcfg{Names: []string{"first", "b"}, LangName: true, MaxW: 7 + d, MaxItems: 5, HoleMaxW: 1, FinalMaxW: 2, Styles: 1, Packages: true, FixParam: true, DefNames: 1}},
+		// a name exported by a stdlib package that the session imports with use-package
+		family{name: "lang-std", cfg: gcfg{Names: []string{"join", "a"}, LangName: true, Stdlib: true, Prelude: "(use-package 'string)\n", MaxW: 4 + d, MaxItems: 2, Styles: 1, HoleMaxW: 2}},
+	)
 	return fams
 }
 
@@ -180,7 +202,7 @@ func processProgram(r *core.Run, st *stats, j job) {
 		return
 	}
 	opts := optionsFor(p, j.fam.cfg.Names, r.Thorough())
-	orig := runSession(p.Files, unionProbes(p, opts))
+	orig := runSession(p.Files, unionProbes(p, opts), j.fam.cfg.Stdlib)
 	atomic.AddInt64(&st.sessions, 1)
 	cache := map[string]observation{}
 	renamedAny := false
@@ -188,7 +210,7 @@ func processProgram(r *core.Run, st *stats, j job) {
 	for _, o := range opts {
 		probes := probesFor(p, o)
 		before := len(cache)
-		fs, m := checkOption(p.Files, o, probes, &orig, cache)
+		fs, m := checkOption(p.Files, o, probes, j.fam.cfg.Stdlib, &orig, cache)
 		atomic.AddInt64(&st.comparisons, 1)
 		if len(cache) > before {
 			atomic.AddInt64(&st.sessions, 1)
@@ -219,7 +241,7 @@ func processProgram(r *core.Run, st *stats, j job) {
 		if len(fs) == 0 {
 			continue
 		}
-		k := kase{Family: j.fam.name, Files: p.Files, Opt: o, Probes: probes, Sig: p.Tags}
+		k := kase{Family: j.fam.name, Files: p.Files, Opt: o, Probes: probes, Sig: p.Tags, Stdlib: j.fam.cfg.Stdlib}
 		if len(j.fam.altFrom) > 0 {
 			k.AltFrom, k.AltTo = j.fam.altFrom[0], j.fam.altTo[0]
 		}
@@ -459,6 +481,8 @@ func featureList(c gcfg) []string {
 	add(c.Redefine, "top-level redefinition")
 	add(c.Packages, "in-package, export, use-package, pkg:name")
 	add(c.Files, "two-file sessions")
+	add(c.LangName, "the first pool name is bound by the language (builtin / special operator / stock macro / stdlib export)")
+	add(c.Stdlib, "runtime with the standard library; the session starts with "+strings.TrimSpace(c.Prelude))
 	return l
 }
 
